@@ -18,7 +18,7 @@ LEVEL = 'exploration'
 RULE = ('1-6 top-level tasks whose parameters are generated trees over the supported grammar (NaN excluded), biased to '
         'collections of tasks and enums (the tutorial\'s aggregation pattern), over 12 types incl. NV/NVX (prefix names), vu.TV/'
         'vu2.TV (same qualname in two modules), JV (custom BaseCache format), P2V (PickleCache subclass sharing the pickle__ '
-        'prefix) and ZV (cache=None); all are cached into one LocalStorage by a serial run; then cached_tasks(S) is queried for '
+        'prefix) and ZV (cache=None); all are cached into one storage (LocalStorage, or FsspecStorage on fsspec's LocalFileSystem) by a serial run; then cached_tasks(S) is queried for '
         'generated type subsets S from a fresh Lab. Oracle: the returned list matches, one-to-one, the cached tasks (top-level and '
         'nested) whose type is in S - each == the original, same cache_key, result_meta == the meta the caching run attached; '
         'nothing for other types/cache formats; run_tasks(returned) returns the stored values with zero run() calls; and '
@@ -74,7 +74,7 @@ def case(draw):
     )
     tops = draw(st.lists(ptrees.task_tree_from(coll_bias, None), min_size=1, max_size=6))
     queries = draw(st.lists(st.lists(st.sampled_from(TYPE_KEYS), min_size=1, max_size=4, unique=True), min_size=1, max_size=3))
-    return {'tasks': tops, 'queries': [[list(q) for q in qs] for qs in queries]}
+    return {'tasks': tops, 'queries': [[list(q) for q in qs] for qs in queries], 'storage': draw(st.sampled_from(['local', 'local', 'fsspec_local']))}
 
 
 def check(spec: dict, markers_ok: bool = False) -> core.CaseResult:
@@ -95,6 +95,9 @@ def check(spec: dict, markers_ok: bool = False) -> core.CaseResult:
     os.environ['VERIF_OBS_DIR'] = d
     try:
         store = os.path.join(d, 'store')
+        if spec.get('storage', 'local') != 'local':
+            from pbt import storages
+            store = storages.make(spec['storage'], store)
         lab = labtech.Lab(storage=store, runner_backend='serial', notebook=False)
         top_objs = [ptrees.build(t) for t in tops]
         pre = {}
